@@ -36,6 +36,10 @@
 //! stream x 1..3 pipelined queries x max_queued_responses {1,2,default} x a
 //! client that reads promptly / stalls after f frames + x octets; and the
 //! same behaviours through DgramServer. Exactly-once, in order, whole frames.
+//! Part (i): 1..=3 connections in sequence whose set-up future resolves at
+//! once / after 3 turns / after a later event / never / to Err (at once or
+//! after the event) x limit x reconfigure; every established connection is
+//! answered whatever the other set-ups do, commands still take effect.
 //! Part (a) also covers every deciding branch of the cookie middleware
 //! (client/valid/expired/too new/wrongly hashed/non-standard/malformed
 //! cookie x deny list x QDCOUNT=0 prefetch) and a limit-aware service
@@ -2076,15 +2080,128 @@ impl AsyncWrite for MockStream {
     }
 }
 
+/// How the set-up future (`AsyncAccept::Future`, e.g. a TLS handshake) of an
+/// accepted connection behaves. A `TcpListener` only ever does `AtOnce`; the
+/// trait allows all of these.
+#[derive(Clone, Copy, Debug, PartialEq, Eq)]
+enum Setup {
+    /// ready when first polled
+    AtOnce,
+    /// Pending (waking itself) for three scheduler turns, then the stream
+    AfterTurns,
+    /// Pending until the driver opens the gate (a later environment event)
+    AfterEvent,
+    /// the peer stalls: never resolves
+    Never,
+    /// Err when first polled
+    FailAtOnce,
+    /// Pending until the driver opens the gate, then Err
+    FailAfterEvent,
+}
+
+impl Setup {
+    const ALL: [Setup; 6] = [Setup::AtOnce, Setup::AfterTurns, Setup::AfterEvent, Setup::Never, Setup::FailAtOnce, Setup::FailAfterEvent];
+    fn name(self) -> &'static str {
+        match self {
+            Setup::AtOnce => "at-once",
+            Setup::AfterTurns => "after-3-turns",
+            Setup::AfterEvent => "after-a-later-event",
+            Setup::Never => "never",
+            Setup::FailAtOnce => "fails-at-once",
+            Setup::FailAfterEvent => "fails-after-a-later-event",
+        }
+    }
+    fn from_name(s: &str) -> Option<Setup> {
+        Setup::ALL.into_iter().find(|m| m.name() == s)
+    }
+    /// the server gets a stream, sooner or later
+    fn establishes(self) -> bool {
+        matches!(self, Setup::AtOnce | Setup::AfterTurns | Setup::AfterEvent)
+    }
+    /// established without any help of the driver
+    fn establishes_unaided(self) -> bool {
+        matches!(self, Setup::AtOnce | Setup::AfterTurns)
+    }
+    fn fails(self) -> bool {
+        matches!(self, Setup::FailAtOnce | Setup::FailAfterEvent)
+    }
+    /// still unresolved until the driver opens the gate (or for ever)
+    fn lingers(self) -> bool {
+        matches!(self, Setup::AfterEvent | Setup::Never | Setup::FailAfterEvent)
+    }
+}
+
+#[derive(Default)]
+struct GateState {
+    open: bool,
+    waker: Option<Waker>,
+}
+
+#[derive(Clone, Default)]
+struct Gate(Arc<Mutex<GateState>>);
+
+impl Gate {
+    fn open(&self) {
+        let mut g = self.0.lock().unwrap();
+        g.open = true;
+        if let Some(w) = g.waker.take() {
+            w.wake();
+        }
+    }
+}
+
+/// The mock's `AsyncAccept::Future`.
+struct SetupFut {
+    stream: Option<MockStream>,
+    mode: Setup,
+    turns_left: u32,
+    gate: Gate,
+}
+
+impl Future for SetupFut {
+    type Output = Result<MockStream, io::Error>;
+    fn poll(self: Pin<&mut Self>, cx: &mut Context<'_>) -> Poll<Self::Output> {
+        let this = self.get_mut();
+        let failed = || Poll::Ready(Err(io::Error::new(io::ErrorKind::InvalidData, "mock: handshake failed")));
+        match this.mode {
+            Setup::AtOnce => Poll::Ready(Ok(this.stream.take().expect("set-up future polled after completion"))),
+            Setup::FailAtOnce => failed(),
+            Setup::AfterTurns => {
+                if this.turns_left > 0 {
+                    this.turns_left -= 1;
+                    cx.waker().wake_by_ref();
+                    Poll::Pending
+                } else {
+                    Poll::Ready(Ok(this.stream.take().expect("set-up future polled after completion")))
+                }
+            }
+            Setup::Never => Poll::Pending,
+            Setup::AfterEvent | Setup::FailAfterEvent => {
+                let mut g = this.gate.0.lock().unwrap();
+                if !g.open {
+                    g.waker = Some(cx.waker().clone());
+                    return Poll::Pending;
+                }
+                drop(g);
+                if this.mode == Setup::AfterEvent {
+                    Poll::Ready(Ok(this.stream.take().expect("set-up future polled after completion")))
+                } else {
+                    failed()
+                }
+            }
+        }
+    }
+}
+
 #[derive(Default)]
 struct ListenerState {
-    /// `None` = a connection whose set-up (the `AsyncAccept::Future`, e.g. a
-    /// TLS handshake) is scripted to fail
-    pending: VecDeque<(Option<MockStream>, SocketAddr)>,
+    /// the stream, the peer, how the connection's set-up (the
+    /// `AsyncAccept::Future`, e.g. a TLS handshake) is scripted to go
+    pending: VecDeque<(MockStream, SocketAddr, Setup, Gate)>,
     waker: Option<Waker>,
     err_done: bool,
     accept_errors: u32,
-    /// peers whose set-up future resolved to Err
+    /// peers whose set-up future resolves to Err or never resolves
     setup_failed: Vec<SocketAddr>,
 }
 
@@ -2101,28 +2218,36 @@ impl MockListener {
         MockListener(Arc::new(ListenerInner { env: env.clone(), st: Mutex::new(ListenerState::default()) }))
     }
     fn connect(&self, s: MockStream, a: SocketAddr) {
-        self.push(Some(s), a);
+        self.connect_with(s, a, Setup::AtOnce);
     }
     /// A peer whose connection set-up fails after it was accepted.
     fn connect_failing(&self, a: SocketAddr) {
-        self.push(None, a);
+        let s = MockStream::quiet(&self.0.env);
+        self.connect_with(s, a, Setup::FailAtOnce);
+    }
+    /// A peer whose connection set-up goes as `mode` says.
+    fn connect_with(&self, s: MockStream, a: SocketAddr, mode: Setup) -> Gate {
+        let gate = Gate::default();
+        let mut st = self.0.st.lock().unwrap();
+        st.pending.push_back((s, a, mode, gate.clone()));
+        if let Some(w) = st.waker.take() {
+            w.wake();
+        }
+        gate
     }
     fn setup_failed(&self, a: SocketAddr) -> bool {
         self.0.st.lock().unwrap().setup_failed.contains(&a)
     }
-    fn push(&self, s: Option<MockStream>, a: SocketAddr) {
-        let mut st = self.0.st.lock().unwrap();
-        st.pending.push_back((s, a));
-        if let Some(w) = st.waker.take() {
-            w.wake();
-        }
-    }
 }
+
+/// answers to "tcp-accept" in the exploration (part (b)): 0 = accepted and
+/// set up at once, 1 = poll_accept error, 2.. = these set-up futures
+const ACCEPT_SETUPS: [Setup; 3] = [Setup::FailAtOnce, Setup::AfterTurns, Setup::Never];
 
 impl AsyncAccept for MockListener {
     type Error = io::Error;
     type StreamType = MockStream;
-    type Future = std::future::Ready<Result<MockStream, io::Error>>;
+    type Future = SetupFut;
 
     fn poll_accept(&self, cx: &mut Context<'_>) -> Poll<io::Result<(Self::Future, SocketAddr)>> {
         let mut st = self.0.st.lock().unwrap();
@@ -2130,30 +2255,33 @@ impl AsyncAccept for MockListener {
             st.waker = Some(cx.waker().clone());
             return Poll::Pending;
         }
-        // scripted failing set-ups and quiet streams ask no question
-        let quiet = st.pending.front().map(|p| p.0.as_ref().map(|s| s.0.quiet).unwrap_or(true)).unwrap_or(false);
-        let mut fail_setup = false;
+        // scripted set-ups and quiet streams ask no question
+        let quiet = st.pending.front().map(|p| p.0 .0.quiet || p.2 != Setup::AtOnce).unwrap_or(false);
+        let mut chosen: Option<Setup> = None;
         if !quiet && !st.err_done {
-            match self.0.env.choose(3, "tcp-accept") {
+            match self.0.env.choose(2 + ACCEPT_SETUPS.len(), "tcp-accept") {
+                0 => {}
                 1 => {
                     st.err_done = true;
                     st.accept_errors += 1;
                     return Poll::Ready(Err(io::Error::new(io::ErrorKind::ConnectionAborted, "mock: accept failed")));
                 }
-                2 => fail_setup = true,
-                _ => {}
+                k => chosen = Some(ACCEPT_SETUPS[k - 2]),
             }
         }
         st.err_done = false;
-        let (s, a) = st.pending.pop_front().unwrap();
-        match s {
-            Some(s) if !fail_setup => Poll::Ready(Ok((std::future::ready(Ok(s)), a))),
-            _ => {
-                st.setup_failed.push(a);
-                self.0.env.flag("connection-setup-failed");
-                Poll::Ready(Ok((std::future::ready(Err(io::Error::new(io::ErrorKind::InvalidData, "mock: handshake failed"))), a)))
-            }
+        let (s, a, scripted, gate) = st.pending.pop_front().unwrap();
+        let mode = chosen.unwrap_or(scripted);
+        if mode.fails() {
+            st.setup_failed.push(a);
+            self.0.env.flag("connection-setup-failed");
+        } else if mode == Setup::Never {
+            st.setup_failed.push(a);
+            self.0.env.flag("connection-setup-never-finishes");
+        } else if mode != Setup::AtOnce {
+            self.0.env.flag("connection-setup-finishes-later");
         }
+        Poll::Ready(Ok((SetupFut { stream: Some(s), mode, turns_left: 3, gate }, a)))
     }
 }
 
@@ -2842,6 +2970,267 @@ fn holder_cases() -> Vec<HolderCase> {
         for at_max in [true, false] {
             for wake in [0usize, 1] {
                 v.push(HolderCase { limit, at_max, wake });
+            }
+        }
+    }
+    v
+}
+
+// ===========================================================================
+// Part (i): connections whose set-up future resolves at once / later / never
+// / to Err, accepted in sequence; requests on the established ones
+// ===========================================================================
+
+#[derive(Clone, Debug)]
+struct SetupCase {
+    /// one entry per connection, in order of arrival (1 s apart)
+    modes: Vec<Setup>,
+    /// max_concurrent_connections = exactly what the connections that are not
+    /// refused need (false: the default of 100)
+    tight: bool,
+    /// 0: nothing; 1: the server starts with max_concurrent_connections = 1
+    /// and StreamServer::reconfigure sets the real limit 1 s after the first
+    /// connection arrived
+    cmd: usize,
+}
+
+impl SetupCase {
+    fn to_json(&self) -> Value {
+        json!({"part": "setups", "modes": self.modes.iter().map(|m| m.name()).collect::<Vec<_>>(), "tight": self.tight, "cmd": self.cmd})
+    }
+    fn from_json(v: &Value) -> Option<SetupCase> {
+        let modes = v["modes"].as_array()?.iter().map(|m| Setup::from_name(m.as_str()?)).collect::<Option<Vec<_>>>()?;
+        Some(SetupCase { modes, tight: v["tight"].as_bool()?, cmd: v["cmd"].as_u64()? as usize })
+    }
+    /// slots needed: every connection whose set-up does not fail (a stalled
+    /// one may or may not be counted by the server: room for it either way)
+    /// plus the fresh connection at the end
+    fn limit(&self) -> Option<usize> {
+        if self.tight {
+            Some(self.modes.iter().filter(|m| !m.fails()).count() + 1)
+        } else {
+            None
+        }
+    }
+}
+
+struct SetupsObs {
+    /// per connection: what the server had written 3 s after the last one
+    /// arrived (no gate opened yet), and the final observation
+    conns: Vec<(Vec<u8>, ConnObs)>,
+    first_req: Vec<Vec<u8>>,
+    y: ConnObs,
+    alive: bool,
+    stopped: bool,
+    reconf_ok: bool,
+}
+
+fn setup_addr(k: usize) -> SocketAddr {
+    SocketAddr::from(([198, 51, 100, 60 + k as u8], 5000 + k as u16))
+}
+
+async fn drive_setups(env: Arc<Env>, case: SetupCase) -> SetupsObs {
+    let listener = MockListener::new(&env);
+    let mk = |limit: Option<usize>| {
+        let mut cfg = stream::Config::new();
+        if let Some(m) = limit {
+            cfg.set_max_concurrent_connections(m);
+        }
+        cfg
+    };
+    let initial = if case.cmd == 1 { Some(1) } else { case.limit() };
+    let srv = Arc::new(StreamServer::with_config(listener.clone(), VecBufSource, mk_server_service(&env), mk(initial)));
+    let s2 = srv.clone();
+    let jh = tokio::spawn(async move { s2.run().await });
+    let mut conns: Vec<(MockStream, Gate, Vec<u8>)> = Vec::new();
+    let mut first_req = Vec::new();
+    let mut reconf_ok = true;
+    for (k, m) in case.modes.iter().enumerate() {
+        let s = MockStream::quiet(&env);
+        let gate = listener.connect_with(s.clone(), setup_addr(k), *m);
+        // the peer's first query is on the wire as soon as it connected
+        let rb = frame_of(&probe_message(0x5100 + k as u16));
+        s.feed(&rb);
+        first_req.push(rb.clone());
+        conns.push((s, gate, rb));
+        tokio::time::sleep(Duration::from_secs(1)).await;
+        if k == 0 && case.cmd == 1 {
+            reconf_ok = srv.reconfigure(mk(case.limit())).is_ok();
+            tokio::time::sleep(Duration::from_secs(1)).await;
+        }
+    }
+    tokio::time::sleep(Duration::from_secs(3)).await;
+    let early: Vec<Vec<u8>> = conns.iter().map(|c| c.0 .0.st.lock().unwrap().out.clone()).collect();
+    // the later environment event: the slow peers finish (or give up)
+    for c in &conns {
+        c.1.open();
+    }
+    tokio::time::sleep(Duration::from_secs(3)).await;
+    // every peer sends a second query (only the established ones are heard)
+    for (k, c) in conns.iter_mut().enumerate() {
+        let rb = frame_of(&probe_message(0x5200 + k as u16));
+        c.0.feed(&rb);
+        c.2.extend_from_slice(&rb);
+    }
+    tokio::time::sleep(Duration::from_secs(3)).await;
+    // a fresh well-behaved connection while the stalled ones still stall
+    let addr_y: SocketAddr = "192.0.2.41:4201".parse().unwrap();
+    let (y, yb) = quiet_conn(&env, &listener, addr_y, 0x52FF);
+    tokio::time::sleep(Duration::from_secs(5)).await;
+    let alive = !jh.is_finished();
+    let _ = srv.shutdown();
+    tokio::time::sleep(Duration::from_secs(1)).await;
+    let stopped = jh.is_finished();
+    SetupsObs {
+        conns: conns.iter().zip(early).map(|(c, e)| (e, conn_obs(&c.0, c.2.clone()))).collect(),
+        first_req,
+        y: conn_obs(&y, yb),
+        alive,
+        stopped,
+        reconf_ok,
+    }
+}
+
+fn run_setups(case: &SetupCase, col: &Collector) {
+    let env = Env::new(Chooser::default(), true);
+    let _ = take_task_panics();
+    let env2 = env.clone();
+    let case2 = case.clone();
+    let rt = new_runtime();
+    let res = guard(|| rt.block_on(drive_setups(env2, case2)));
+    drop(rt);
+    let panics = take_task_panics();
+    let replay = case.to_json();
+    let mut viol: Vec<(String, String)> = Vec::new();
+    for p in &panics {
+        viol.push((format!("C16|stream-setup|panic|{}", panic_class(p)), format!("panic in the stream server: {p}")));
+    }
+    let obs = match res {
+        Ok(o) => o,
+        Err(p) => {
+            if panics.is_empty() {
+                viol.push((format!("C16|stream-setup|panic|{}", panic_class(&p)), format!("panic: {p}")));
+            }
+            col.report(viol, &replay);
+            return;
+        }
+    };
+    // what the other peers were doing, as a class
+    let others = |k: usize, upto: usize| -> &'static str {
+        let earlier = &case.modes[..k.min(case.modes.len())];
+        let _ = upto;
+        if earlier.iter().any(|m| *m == Setup::Never) {
+            "an-earlier-connection's-set-up-never-finishes"
+        } else if earlier.iter().any(|m| m.lingers()) {
+            "an-earlier-connection's-set-up-was-still-pending"
+        } else if earlier.iter().any(|m| m.fails()) {
+            "an-earlier-connection's-set-up-failed"
+        } else {
+            "no-earlier-set-up-pending-or-failed"
+        }
+    };
+    let cmd_pred = if case.cmd == 1 { "limit-raised-by-reconfigure-after-the-first-connection" } else if case.tight { "limit=connections-that-need-a-slot" } else { "default-limit" };
+    if !obs.alive {
+        viol.push((format!("C16|stream-setup|server-task-exited|{}", others(case.modes.len(), 0)), "StreamServer::run returned before shutdown".into()));
+    }
+    if !obs.stopped {
+        let pending = if case.modes.iter().any(|m| *m == Setup::Never) { "while-a-set-up-never-finishes" } else { "no-set-up-pending" };
+        viol.push((format!("C16|stream-setup|server-task-ignores-shutdown|{pending}"), "StreamServer::run did not return within 1 s after shutdown()".into()));
+    }
+    if !obs.reconf_ok {
+        viol.push(("C16|stream-setup|reconfigure-rejected".into(), "StreamServer::reconfigure returned an error while the server was running".into()));
+    }
+    let log = env.log.lock().unwrap();
+    // `expected` whole responses on a connection, judged with the shared
+    // per-connection oracle (ID, question, framing, exactly once)
+    let mut demand = |what: &str, own: &str, pred: &str, conn: &ConnObs, addr: SocketAddr, expected: usize, viol: &mut Vec<(String, String)>| -> usize {
+        let before = viol.len();
+        let (w, _) = judge_conn("stream-setup", conn, &log, addr, Some(pred), viol);
+        let sig = format!("C16|stream-setup|{what}|{own}|{pred}|{cmd_pred}");
+        let text = format!("connections with set-up futures {:?} (1 s apart), limit {:?}, cmd {}: {what}: {w} whole responses to {expected} queries", case.modes.iter().map(|m| m.name()).collect::<Vec<_>>(), case.limit(), case.cmd);
+        if w != expected && viol.len() == before {
+            viol.push((sig.clone(), text.clone()));
+        }
+        // a query that never reached the service is the same event
+        for v in viol.iter_mut().skip(before) {
+            if v.0.starts_with("C16|stream-setup|request-not-dispatched") {
+                v.0 = sig.clone();
+                v.1 = text.clone();
+            }
+        }
+        w
+    };
+    let mut answered = Vec::new();
+    for (k, (early, fin)) in obs.conns.iter().enumerate() {
+        let m = case.modes[k];
+        let own = match m {
+            Setup::AtOnce => "own-set-up-at-once",
+            Setup::AfterTurns => "own-set-up-after-3-turns",
+            Setup::AfterEvent => "own-set-up-after-a-later-event",
+            _ => "own-set-up-not-completed",
+        };
+        if m.establishes_unaided() {
+            // answered while the other peers still keep the server waiting
+            let e = ConnObs { delivered: obs.first_req[k].clone(), out: early.clone(), client_abort: None, write_fail: false, writes: Vec::new(), server_closed: false };
+            demand("established-connection-unanswered-within-3s", own, others(k, 0), &e, setup_addr(k), 1, &mut viol);
+        }
+        if m.establishes() {
+            if m == Setup::AfterEvent && !early.is_empty() {
+                viol.push(("C16|stream-setup|octets-written-before-the-set-up-completed".into(), format!("{} octets", early.len())));
+            }
+            let w = demand("established-connection-unanswered", own, others(k, 0), fin, setup_addr(k), 2, &mut viol);
+            answered.push(w);
+        } else {
+            if !fin.out.is_empty() {
+                viol.push(("C16|stream-setup|octets-written-to-a-connection-that-was-never-set-up".into(), format!("{} octets on connection #{k} ({})", fin.out.len(), m.name())));
+            }
+            answered.push(0);
+        }
+    }
+    let wy = demand("fresh-connection-unanswered", "own-set-up-at-once", others(case.modes.len(), 0), &obs.y, "192.0.2.41:4201".parse().unwrap(), 1, &mut viol);
+    let st = &col.stats;
+    st.eval();
+    for m in &case.modes {
+        st.count(&format!("setups.mode.{}", m.name()));
+    }
+    st.count(&format!("setups.connections={}.{cmd_pred}", case.modes.len()));
+    st.count(&format!("setups.fresh-connection-answers={wy}"));
+    st.count(&format!("setups.responses-on-established-connections={}", answered.iter().sum::<usize>()));
+    if case.modes.iter().any(|m| *m != Setup::AtOnce) {
+        st.distinct(fnv(format!("{case:?}").as_bytes()));
+    }
+    st.sample(8, || json!({"part": "setups", "case": replay.clone(), "responses_per_connection": answered.clone(), "fresh_connection_answers": wy}));
+    if col.verbose {
+        println!("setups {case:?}: responses per connection {answered:?}, fresh connection {wy}, alive {} stopped {}", obs.alive, obs.stopped);
+        for (k, (early, fin)) in obs.conns.iter().enumerate() {
+            println!("  #{k} {}: {} octets within 3 s, {} in the end, server closed it: {}", case.modes[k].name(), early.len(), fin.out.len(), fin.server_closed);
+        }
+        println!("  dispatched: {:?}", log.dispatched.iter().map(|d| format!("{:#x}", d.0)).collect::<Vec<_>>());
+    }
+    drop(log);
+    col.report(viol, &replay);
+}
+
+/// Every sequence of 1..=3 set-up behaviours; quick: the limit / reconfigure
+/// dimensions only for sequences of up to two.
+fn setup_cases(quick: bool) -> Vec<SetupCase> {
+    let mut v = Vec::new();
+    for n in 1..=3usize {
+        let total = Setup::ALL.len().pow(n as u32);
+        for code in 0..total {
+            let mut c = code;
+            let mut modes = Vec::new();
+            for _ in 0..n {
+                modes.push(Setup::ALL[c % Setup::ALL.len()]);
+                c /= Setup::ALL.len();
+            }
+            for tight in [false, true] {
+                for cmd in [0usize, 1] {
+                    if quick && n == 3 && (tight || cmd == 1) {
+                        continue;
+                    }
+                    v.push(SetupCase { modes: modes.clone(), tight, cmd });
+                }
             }
         }
     }
@@ -3589,6 +3978,10 @@ fn main() {
                 let c = FbCase::from_json(case).expect("case");
                 run_feedback(&c, &col);
             }
+            Some("setups") => {
+                let c = SetupCase::from_json(case).expect("case");
+                run_setups(&c, &col);
+            }
             Some("failed-setups") => {
                 run_failed_setups(case["n"].as_u64().unwrap() as usize, case["max_concurrent_connections"].as_u64().map(|x| x as usize), &col);
             }
@@ -3698,6 +4091,14 @@ fn main() {
         wd.leave();
     });
 
+    // ---- part (i): set-up futures that resolve at once / later / never / to Err --
+    let su_cases = setup_cases(quick);
+    su_cases.par_iter().for_each(|c| {
+        wd.enter(|| c.to_json());
+        run_setups(c, &col);
+        wd.leave();
+    });
+
     let h_cases = holder_cases();
     for hc in &h_cases {
         wd.enter(|| json!({"part": "holders"}));
@@ -3722,7 +4123,7 @@ fn main() {
         wd.leave();
     });
 
-    let b_execs = fb_cases.len() as u64 + h_cases.len() as u64 + max_txn as u64 + dg.executions + sx.executions + max_depth as u64 + fs_cases.len() as u64 + rc_cases.len() as u64 + wc_cases.len() as u64;
+    let b_execs = su_cases.len() as u64 + fb_cases.len() as u64 + h_cases.len() as u64 + max_txn as u64 + dg.executions + sx.executions + max_depth as u64 + fs_cases.len() as u64 + rc_cases.len() as u64 + wc_cases.len() as u64;
     let evaluations = a_stats.evals() + b_execs;
     let distinct = a_stats.distinct_count() + col.stats.distinct_count();
     let mut samples = a_stats.samples();
@@ -3735,7 +4136,7 @@ fn main() {
             "traces_validated_against_impl": a_stats.evals() + b_execs,
             "evaluations": evaluations,
             "distinct_nontrivial": distinct,
-            "rule": "(a) a case is non-trivial when the middleware changed the service's response, truncated it, or it exceeds the bound; (b) an execution is non-trivial when it has >= 1 non-default choice; (c) every depth; (d) every (n, limit) pair; (e) every (l1, l2, size, advertised) tuple; (f) every (cut, mode) pair; (h) every (layout, behaviour, queue capacity, reader) tuple; distinct by hash of the case / choice vector",
+            "rule": "(a) a case is non-trivial when the middleware changed the service's response, truncated it, or it exceeds the bound; (b) an execution is non-trivial when it has >= 1 non-default choice; (c) every depth; (d) every (n, limit) pair; (e) every (l1, l2, size, advertised) tuple; (f) every (cut, mode) pair; (h) every (layout, behaviour, queue capacity, reader) tuple; (i) every (set-up sequence, limit, command) tuple with a set-up that is not immediate; distinct by hash of the case / choice vector",
             "exhaustive": exhaustive,
             "samples": samples,
             "part_a": {
@@ -3756,6 +4157,7 @@ fn main() {
                 "write_cut_cases": wc_cases.len(),
                 "write_cut_stream_octets": wc_total,
                 "reconfigure_cases": rc_cases.len(),
+                "setup_future_cases": su_cases.len(),
                 "failed_setup_cases": fs_cases.iter().map(|(n, l)| json!([n, l])).collect::<Vec<_>>(),
                 "histogram": col.stats.counters_json(),
             },
@@ -3776,6 +4178,7 @@ fn main() {
             "part (h) datagram: the same behaviours through DgramServer (shared ServiceInvoker): every response produced is sent exactly once, in order",
             "part (e): DgramServer with limit l1 serves a request, reconfigure(l2), 1 s, a request, reconfigure(l1), 1 s, a request; l1 != l2 in {512,1232,4096,none}, EDNS 1232/4096, service sizes around every limit; the limit demanded for a request is the one configured when it is received, which is all that dgram::Config::set_max_response_size promises for reconfigure",
             "part (d): n connections whose AsyncAccept::Future resolves to Err arrive one at a time (100 ms apart), then one fresh well-behaved connection; max_concurrent_connections in {1,2,3} with n = 0..=limit+2 (quick) / limit+5 (thorough), and the default 100 with n in {1,99,100,101} (quick) / 1..=130 (thorough); a connection whose set-up failed holds no slot of the connection limit",
+            "part (i): 1..=3 connections arrive 1 s apart, each with its first query already on the wire; the AsyncAccept::Future of each is one of {ready at once, Pending for 3 scheduler turns, Pending until a later event of the driver then the stream, never ready (peer stalls), Err at once, Pending until the event then Err}; x max_concurrent_connections {default 100, exactly the connections whose set-up does not fail + 1} x {no command, server started with limit 1 and reconfigure() to the real limit 1 s after the first connection} (quick: the last two dimensions only for up to two connections). 3 s after the last arrival - before the driver's event - every connection whose set-up completes unaided must have its whole, correct answer whatever the other set-ups do; after the event every established connection gets a second query and must end with exactly two answers; a fresh connection must then be answered while stalled set-ups still stall; nothing is ever written to a stream whose set-up did not complete; run() must not return before and must return within 1 s after shutdown(), also with a set-up pending for ever; a failed set-up must not keep a slot (tight limit). The exploration of part (b) also answers tcp-accept with a set-up future that is Pending for 3 turns or for ever",
             "a complete frame shorter than a DNS header, a client EOF/reset, or an environment write failure on a connection excuses missing responses on THAT connection (closing such a connection is permitted, RFC 7766 6.2.4); other connections and earlier written responses are still checked",
             "a FORMERR response with an empty question section is accepted as echoing the question (the server declares it could not parse the request)",
             "UDP bound: min(max(advertised,512), configured limit), 512 when the request carries no (or more than one) OPT; the configured limit is what DgramServer passes as UdpTransportContext hint (dgram.rs process_received_message)",
